@@ -128,6 +128,7 @@ enum Obs {
     Err(u8),
     /// accepted by verify_response but refused by verify_response_with_signature
     Split,
+    History(&'static str),
 }
 
 pub fn run_input(input: &Value) -> Case {
@@ -164,7 +165,23 @@ pub fn run_input(input: &Value) -> Case {
                 let bytes: Vec<u8> = sig.as_ref().to_vec();
                 // the stored-signature entry point must agree on what was just accepted
                 match handler.verify_response_with_signature(&sig, &req, &resp, id, &Nonce::from(nonce)) {
-                    Ok(()) => Obs::Ok(bytes),
+                    Ok(()) => {
+                        // verification is a function of its arguments: on the SAME handler, which has just accepted this
+                        // exchange, the same ETag over an altered response body, and the stored signature over an altered
+                        // request body, must still be refused, and the genuine exchange still accepted
+                        let mut resp2 = resp.clone();
+                        resp2.push(b' ');
+                        let mut b2 = http::Response::builder().status(200);
+                        for e in &etags { b2 = b2.header(ETAG, HeaderValue::from_bytes(e).unwrap()); }
+                        let response2: http::Response<Vec<u8>> = b2.body(resp2.clone()).unwrap();
+                        let mut req2 = req.clone();
+                        req2.push(b' ');
+                        if handler.verify_response(&meta, &response2, id).is_ok() { Obs::History("altered response body accepted after the genuine one") }
+                        else if handler.verify_response_with_signature(&sig, &req, &resp2, id, &Nonce::from(nonce)).is_ok() { Obs::History("stored signature accepted over an altered response body") }
+                        else if handler.verify_response_with_signature(&sig, &req2, &resp, id, &Nonce::from(nonce)).is_ok() { Obs::History("stored signature accepted over an altered request body") }
+                        else if handler.verify_response(&meta, &response, id).is_err() { Obs::History("the genuine exchange refused the second time") }
+                        else { Obs::Ok(bytes) }
+                    }
                     Err(_) => Obs::Split,
                 }
             }
@@ -198,6 +215,10 @@ pub fn run_input(input: &Value) -> Case {
         Ok(Obs::Err(i)) => {
             out["impl"] = json!({"err": ERR_NAMES[i as usize]});
             (format!("(inl {})", i), class)
+        }
+        Ok(Obs::History(what)) => {
+            out["impl"] = json!(format!("history on one handler: {}", what));
+            ("(inl 97)".to_string(), format!("{}-HISTORY", class))
         }
         Ok(Obs::Split) => {
             out["impl"] = json!("verify_response accepted, verify_response_with_signature refused");
